@@ -4,7 +4,7 @@ import numpy as np
 import nets
 
 PID = "C08"
-THEOREMS = ["push_fold", "strahler_spec", "kids_mem", "classic_spec", "main_upstream_spec", "strahler_fits", "gen_main_upstream_eq"]
+THEOREMS = ["push_fold", "strahler_spec", "kids_mem", "classic_spec", "main_upstream_spec", "strahler_fits", "gen_main_upstream_eq", "gen_strahler_order_eq", "gen_upstream_count_eq", "gen_stream_order_eq"]
 RULE = ("all loop-free closed graphs on n<=5 cells (n<=6 thorough, junction degree up to 5) x downstream-closed masks, "
         "stars with 3..8 tributaries of prescribed orders (every multiset over {1,2,3} up to size 5, random up to 8), "
         "random forests to 60 cells, upstream-area fields with ties for main_upstream; kernels and "
